@@ -646,6 +646,9 @@ def specials(rng):
     # a struct passed by const reference, by reference (changed by the callee), by value and by pointer
     decls += [{"decl": "struct Pt { int x; double y; };"}, {"decl": "int pt_cref(const Pt &p)"}, {"decl": "void pt_scale(Pt &p +intent(inout), int k)"},
               {"decl": "int pt_val(Pt p)"}, {"decl": "int pt_ptr(const Pt *p)"}]
+    # an overload pair that differs in the constness of a struct argument: the intent(in) attribute on the non-const one does not
+    # make the wrapper's local const (the call would resolve to the other overload)
+    decls += [{"decl": "int take(Pt &p +intent(in), int k)"}, {"decl": "int take(const Pt &p, double k)"}]
     # a vector the library resizes: the caller's allocatable array takes the new extent (grow and shrink)
     decls += [{"decl": "void vgrow(std::vector<int> &arg +intent(inout)+deref(allocatable), int extra)"}]
     # std::string results into a fixed-length Fortran variable (function result with +len, result as an output argument): the
@@ -674,7 +677,7 @@ def specials(rng):
     hpp = ["int total_length(const std::vector<std::string> &names);", "int label(const std::string &name);", "int label(bool flag);", "int labelv(std::string name);", "int labelv(bool flag);", "int putx(char c);", "int putx(int v);", "int putx(double v);", "enum Mode { FAST = 4, SAFE = 2, NONE = 0, AUTO };", "int weight(Mode m);",
            "int sumv(const int *values, int nvalues);", "void iota_out(int n, std::vector<int> &arg);", "void put(int v);", "void eq_trace_put(double v, int size);",
            "template<typename T> void put(T v) { eq_trace_put((double)v, (int)sizeof(T)); }", "const std::string getlbl(int i);", "const std::string getlbl2(int i);", "void vgrow(std::vector<int> &arg, int extra);", "struct Pt { int x; double y; };",
-           "int pt_cref(const Pt &p);", "void pt_scale(Pt &p, int k);", "int pt_val(Pt p);", "int pt_ptr(const Pt *p);", "double tagd(const std::string &name, double arg);",
+           "int take(Pt &p, int k);", "int take(const Pt &p, double k);", "int pt_cref(const Pt &p);", "void pt_scale(Pt &p, int k);", "int pt_val(Pt p);", "int pt_ptr(const Pt *p);", "double tagd(const std::string &name, double arg);",
            "int defs(int a, int b = 10, int c = 100);", "double defd(double x, double y = 0.0);",
            "void eq_trace_twice(double v);",
            "template<typename T> T twice(T v) { eq_trace_twice((double)v); return (T)(v + v); }",
@@ -696,6 +699,8 @@ def specials(rng):
            'for (size_t i = 0; i < names.size(); ++i) { std::cout << "[" << names[i] << "]"; t += (int)names[i].size(); } std::cout << ")\\n"; return t; }',
            'int label(const std::string &name) { std::cout << "callee label(string [" << name << "])\\n"; return 100 + (int)name.size(); }',
            'double tagd(const std::string &name, double arg) { std::cout << "callee tagd([" << name << "],"; show(arg); std::cout << ")\\n"; return arg + (double)name.size(); }',
+           'int take(Pt &p, int k) { std::cout << "callee take(Pt&," << p.x << "," << k << ")\\n"; return 1000 + p.x + k; }',
+           'int take(const Pt &p, double k) { std::cout << "callee take(const Pt&," << p.x << ","; show(k); std::cout << ")\\n"; return 2000 + p.x + (int)k; }',
            'int pt_cref(const Pt &p) { std::cout << "callee pt_cref(" << p.x << ","; show(p.y); std::cout << ")\\n"; return p.x * 10; }',
            'void pt_scale(Pt &p, int k) { std::cout << "callee pt_scale(" << p.x << ","; show(p.y); std::cout << "," << k << ")\\n"; p.x *= k; p.y *= k; }',
            'int pt_val(Pt p) { std::cout << "callee pt_val(" << p.x << ","; show(p.y); std::cout << ")\\n"; return p.x + 1; }',
@@ -769,6 +774,8 @@ def specials(rng):
         ["    pt_scale(sp_p, %d); eq_begin(\"pt_scale\"); eq_int(sp_p.x); eq_double(sp_p.y); eq_end(); }" % pk]
     cdrv += ["    { EQ_pt sp_p = {%d, 1.5};" % px] + dshow("pt_cref", "EQ_pt_cref(&sp_p)") + dshow("pt_val", "EQ_pt_val(sp_p)") + dshow("pt_ptr", "EQ_pt_ptr(&sp_p)") + \
         ["    EQ_pt_scale(&sp_p, %d); eq_begin(\"pt_scale\"); eq_int(sp_p.x); eq_double(sp_p.y); eq_end(); }" % pk]
+    direct += ["    { Pt sp_p = {%d, 1.5};" % px] + dshow("take_mut", "take(sp_p, 3)") + dshow("take_const", "take((const Pt &)sp_p, 2.5)") + ["    }"]
+    cdrv += ["    { EQ_pt sp_p = {%d, 1.5};" % px] + dshow("take_mut", "EQ_take_0(&sp_p, 3)") + dshow("take_const", "EQ_take_1(&sp_p, 2.5)") + ["    }"]
     vg1, vg2 = rng.choice([1, 2, 4]), rng.choice([-1, -2, -3])
     direct += ["    { std::vector<int> sp_v = {1, 2, 3};"]
     cdrv += ["    { int sp_v[16] = {1, 2, 3}; long sp_n = 3;"]
@@ -851,6 +858,9 @@ def specials(rng):
     fbody += ["    sp_i = pt_ptr(sp_pt)"] + fshow("pt_ptr", f_show("int", "sp_i"))
     fbody += ["    call pt_scale(sp_pt, %d_C_INT)" % pk, "    call eq_begin(\"pt_scale\"//C_NULL_CHAR)", "    call eq_int(int(sp_pt%x, C_LONG))",
               "    call eq_double(sp_pt%y)", "    call eq_end()"]
+    fbody += ["    sp_pt%%x = %d_C_INT" % px, "    sp_pt%y = 1.5_C_DOUBLE"]
+    fbody += ["    sp_i = take(sp_pt, 3_C_INT)"] + fshow("take_mut", f_show("int", "sp_i"))
+    fbody += ["    sp_i = take(sp_pt, 2.5_C_DOUBLE)"] + fshow("take_const", f_show("int", "sp_i"))
     fdecl += ["    integer(C_INT), allocatable :: sp_vg(:)"]
     fbody += ["    allocate(sp_vg(3))", "    sp_vg = [1_C_INT, 2_C_INT, 3_C_INT]"]
     for tag, ex in (("vgrow", vg1), ("vshrink", vg2)):
